@@ -103,6 +103,13 @@ func (p *Path) tryGuess(cons []*B, atomIDs, varIDs []int, key string) map[string
 			lo, hi := lv.lo, lv.hi
 			if _, single := a.cls.single(); hi > lo+64 && !single {
 				hi = lo + 64
+			} else if single {
+				if lo > 1<<17 {
+					return nil // too large to materialise; leave it to the solver (length-only encoding)
+				}
+				if hi > 1<<17 {
+					hi = 1 << 17
+				}
 			}
 			var n int64
 			switch {
